@@ -1,6 +1,7 @@
 From Coq Require Extraction.
 From Coq Require Import ExtrOcamlBasic.
 From Tickit Require Import RectDefs RBDefs RBSpec Gen_Linechars RBGlyphs RBFlushDefs RBFlushSpec.
-Extraction "mC04.ml" rb_new step a_new astep dump_checkb api_of abs_rb wf_rbb ast_eqb aux_eqb
+From Tickit Require PenDefs.
+Extraction "mC04.ml" rb_new pget pen_build pen_empty PenDefs.attr_type step a_new astep dump_checkb api_of abs_rb wf_rbb ast_eqb aux_eqb
   grapheme_at cpw text_valid text_width
-  flush t_init t_run flush_checkb payload_checkb a_reset linemask_to_char table_okb canon_pen.
+  flush t_init t_run flush_checkb payload_checkb xterm_payload a_reset linemask_to_char table_okb canon_pen.
